@@ -96,6 +96,11 @@ CLAIMS["C04"] = dict(
     note="Assumed: perf_counter monotone, asyncio.sleep(d) returns no earlier than d later, the runner issues >= 1 wire request inside the request context (A-REQ). execute_single's error mapping is not yet under contract. Exact reals.",
     design="§4 C04",
 )
+CLAIMS["C10"] = dict(
+    text="Proof that TrackSpecificationReader.parse_task builds a task whose iterations / time periods / ramp-up / clients / name are the spec entry if present, else the enclosing parallel element's default, else the documented default, with the completed-by flags as documented, and that it raises a track syntax error IFF one of the documented rules is violated (no mixing of iterations and time periods, ramp-up only with a sufficient warm-up time period, operation present). Challenge/parallel assembly, duplicate-name rules, default-challenge rules and template include expansion are covered by a BOUNDED stand-in only (generated tracks and template trees through the real loader), labelled bounded.",
+    note="Jinja2 rendering, jsonschema validation and json.loads are third-party engines (assumed). The bounded part (17 single-rule violations, optional-property drops, include depth <= 2) is not counted as proved.",
+    design="§4 C10",
+)
 NA_DEFAULT = "check not built yet in this revision (the framework is under construction; see DESIGN.md §6b build order)"
 checks = []
 for p in props:
